@@ -142,6 +142,21 @@ let do_rsenc args =
     "R " ^ String.concat "." (List.map hex_of_bytes rep)
   | _ -> "R BADREQ"
 
+(* ---- stream gj:  W <field 8|4> <k> <hex matrix>  -> 0 <hex inverse> | 1 *)
+let do_gj args =
+  match args with
+  | [f; k; hx] ->
+    let k = int_of_string k in
+    let b = Array.of_list (bytes_of_hex hx) in
+    let rows = List.init k (fun i -> List.init k (fun j -> b.(i * k + j))) in
+    let res = if f = "8" then invert_mat256 (nat_of_int k) rows else invert_mat16 (nat_of_int k) rows in
+    (match res with
+     | None -> "R 1 "
+     | Some m -> "R 0 " ^ String.concat "" (List.map (fun r -> if r = [] then "" else hex_of_bytes r) m))
+  | [f; k] -> (* k = 0: empty matrix *)
+    (match (if f = "8" then invert_mat256 (nat_of_int 0) [] else invert_mat16 (nat_of_int 0) []) with None -> "R 1 " | Some _ -> "R 0 ")
+  | _ -> "R BADREQ"
+
 (* ---- stream sparse:  M <nr> <nc> <op> ...  (grammar: see harness/drv_sparse.c) *)
 let nats_dot s = if s = "" || s = "-" then [] else List.map (fun x -> nat_of_int (int_of_string x)) (String.split_on_char '.' s)
 let junk_of s = if s = "" || s = "-" then [] else
@@ -256,6 +271,7 @@ let () =
       | "J" :: args -> print_endline (do_ml args)
       | "T" :: args -> print_endline (do_p2d args)
       | "G" :: args -> print_endline (do_rsenc args)
+      | "W" :: args -> print_endline (do_gj args)
       | _ -> print_endline "BADREQ"
     done
   with End_of_file -> ()
